@@ -8,6 +8,7 @@ as it does on the real tree.
 
   T0 reformat      ast.unparse(ast.parse(src))                     (layout, comments, quotes, parentheses)
   T1 alpha         consistent renaming of function-local variables  (x -> x_)
+  T15 swap-eq      `a == b` -> `b == a` (call-free operands)
   T2 swap-else     `if c: A else: B`  ->  `if not c: B else: A`     (no elif chains)
   T3 demorgan      `not a and not b` -> `not (a or b)`, `not a or not b` -> `not (a and b)`
   T4 len-tests     `if x:` on a call to len / explicit `len(x) > 0` spelling of `if xs:` is NOT generated (types unknown);
@@ -64,6 +65,20 @@ class DeMorgan(ast.NodeTransformer):
         if all(isinstance(v, ast.UnaryOp) and isinstance(v.op, ast.Not) for v in node.values):
             dual = ast.Or() if isinstance(node.op, ast.And) else ast.And()
             return ast.UnaryOp(op=ast.Not(), operand=ast.BoolOp(op=dual, values=[v.operand for v in node.values]))
+        return node
+
+
+def _pure_operand(e: ast.AST) -> bool:
+    return all(isinstance(n, (ast.Name, ast.Attribute, ast.Constant, ast.Subscript, ast.Load, ast.Slice, ast.Tuple, ast.UnaryOp, ast.USub, ast.BinOp,
+                              ast.Add, ast.Sub)) for n in ast.walk(e))
+
+
+class SwapEq(ast.NodeTransformer):
+    """T15: `a == b` -> `b == a`, `a != b` -> `b != a` for operands without calls (evaluation order cannot matter)."""
+    def visit_Compare(self, node: ast.Compare):
+        self.generic_visit(node)
+        if len(node.ops) == 1 and isinstance(node.ops[0], (ast.Eq, ast.NotEq)) and _pure_operand(node.left) and _pure_operand(node.comparators[0]):
+            return ast.Compare(left=node.comparators[0], ops=node.ops, comparators=[node.left])
         return node
 
 
@@ -448,7 +463,7 @@ def transform(name: str, src: str, filename: str) -> str:
     if name == "T1":
         return alpha_rename(src, filename)
     tr = {"T2": SwapElse, "T3": DeMorgan, "T4": IsNotNone, "T5": TempReturn, "T6": AugExtend, "T8": LoopToComp, "T9": ReturnElse,
-          "T10": FlattenElse, "T11": IfExpToStmt, "T12": HoistArg, "T14": FStringToFormat}[name]()
+          "T10": FlattenElse, "T11": IfExpToStmt, "T12": HoistArg, "T14": FStringToFormat, "T15": SwapEq}[name]()
     tree = tr.visit(ast.parse(src))
     ast.fix_missing_locations(tree)
     return ast.unparse(tree)
@@ -500,7 +515,7 @@ def main() -> int:
     ap.add_argument("-p", nargs="*", default=[])
     ap.add_argument("--keep", action="store_true")
     ns = ap.parse_args()
-    names = ns.transforms or ["T0", "T1", "T2", "T3", "T4", "T5", "T6", "T7", "T8", "T9", "T10", "T11", "T12", "T13", "T14"]
+    names = ns.transforms or ["T0", "T1", "T2", "T3", "T4", "T5", "T6", "T7", "T8", "T9", "T10", "T11", "T12", "T13", "T14", "T15"]
     props = ns.p or PROPS
     bad = 0
     for name in names:
